@@ -181,7 +181,7 @@ AttrCatalogue ==
   \cup {A("namespace", "cpp", FALSE, "int", "", 1)}
   \cup {A("enum_case", "cpp", d, "str", s, 0) : d \in BOOLEAN, s \in {"kCamelCase", "SHOUTY_CASE, kCamelCase", "snake_case"}}
   \cup {A("enum_case", "cpp", TRUE, "int", "", 1)}
-  \* the reference's own examples:  [$default enum_case: "kCamelCase"]  (no back-end qualifier)
+  \* without the back-end qualifier enum_case is not an attribute the reference defines: must be rejected
   \cup {A("enum_case", "", TRUE, "str", "kCamelCase", 0)}
 
 \* kept out because the reference does not say whether they are legal: non-default enum_case
